@@ -65,6 +65,7 @@ Definition E_CRITICAL : N := 2.       (* enc.ErrUnrecognizedField *)
 Definition E_REQUIRED : N := 3.       (* enc.ErrSkipRequired *)
 Definition E_OVERFLOW : N := 4.       (* enc.ErrBufferOverflow *)
 Definition E_MAPVAL : N := 5.         (* map value type mismatch *)
+Definition E_NOMODEL : N := 98.       (* model index outside the schema: never happens for well-formed schemas *)
 Definition E_FUEL : N := 99.          (* model ran out of fuel: never happens (theorem) *)
 
 Definition P_INDEX : N := 1.          (* index out of range *)
